@@ -130,6 +130,19 @@ Theorem c13_v4_mapped_query e a : lookup e (Q4 a) = lookup e (Q6 (v4_base + a)).
 Proof. exact (v4_mapped_query e a). Qed.
 Print Assumptions c13_v4_mapped_query.
 
+(** What must NOT happen: Sort never invents a prefix. Everything the sorted
+    list holds is the stored form of a prefix the caller loaded, and the list
+    never grows (so the memory an IP set needs is bounded by what was loaded). *)
+Theorem c13_sort_only_drops (l : list pfx) :
+  (forall p, In p (merge l) -> In p l) /\ (length (merge l) <= length l)%nat.
+Proof. exact (merge_only_drops l). Qed.
+Print Assumptions c13_sort_only_drops.
+
+Theorem c13_sorted_list_from_loaded (ps : list rpfx) (l' : list pfx) p :
+  Permutation (map norm ps) l' -> In p (merge l') -> exists r, In r ps /\ p = norm r.
+Proof. exact (sorted_list_from_loaded ps l' p). Qed.
+Print Assumptions c13_sorted_list_from_loaded.
+
 (** Non-vacuity: a load with a duplicate, a nested pair sharing its base
     address (10.0.0.0/8 with host bits set, 10.0.0.0/24), two adjacent /25 and an
     IPv4-mapped IPv6 rule; [l'] is a sorted permutation that is NOT the one
